@@ -6,7 +6,7 @@ import keyword
 from typing import Dict, List, Optional
 
 from ..absint import Interp
-from ..model import AnalysisError, FuncInfo, NotConst, dotted, norm, walk_no_nested
+from ..model import AnalysisError, FuncInfo, NotConst, bind_args, dotted, norm, walk_no_nested
 from ..regexauto import CLASSES, alternative_classes, token_sets, uncovered_after
 from ..report import rule
 from ..util import calls_named, cfg_of, is_const, is_name, key, kw, names_in, strip_pre
@@ -87,22 +87,24 @@ def c18_r2(ctx):
     rsv = stmts_where(lambda n: n.kind == "test" and "PYDANTIC_RESERVED_FIELD_NAMES" in norm(n.ast))
     snake = stmts_where(lambda n: n.kind == "stmt" and isinstance(n.ast, ast.Assign) and norm(n.ast.value).startswith("str_to_snake_case("))
     if not kwt or not rsv or len(snake) != 1:
-        raise AnalysisError("process_name: keyword / reserved-name tests or snake-casing not found")
-    # the escape that counts is the last one on the way to the return
-    kwt = [t for t in kwt if not any(o.id in g.reach_after(t) for o in kwt if o.id != t.id)] or kwt[-1:]
-    rsv = [t for t in rsv if not any(o.id in g.reach_after(t) for o in rsv if o.id != t.id)] or rsv[-1:]
-    for a, b, what in ((snake[0], kwt[0], "snake-casing precedes the keyword escape"), (snake[0], rsv[0], "snake-casing precedes the reserved-name escape")):
-        ctx.check(b.id in g.reach_after(a) and a.id not in g.reach_after(b), key(fi, what), f"order violated: {what}", fi.loc(), okmsg=what)
-    for s in strip:
-        for t, what in ((kwt[0], "keyword"), (rsv[0], "pydantic-reserved name")):
-            ctx.check(s.id not in g.reach_after(t), key(fi, f"strip after {what} escape"),
-                      f"leading underscores are stripped after the {what} escape: `_class` (no snake-casing) becomes `class`, `_model_dump` becomes `model_dump`", fi.loc(s.ast),
-                      okmsg=f"underscore strip happens before the {what} escape")
-    # escapes append a trailing underscore to the processed name
-    for t, what in ((kwt[0], "keyword"), (rsv[0], "reserved")):
-        succ = [g.nodes[j] for j, lab in g.succ[t.id] if lab == "true"]
-        good = len(succ) == 1 and isinstance(succ[0].ast, ast.AugAssign) and norm(succ[0].ast) == "processed_name += '_'"
-        ctx.check(good, key(fi, f"{what} suffix"), f"{what} names are not escaped by a trailing underscore", fi.loc(), okmsg=f"{what} names get a trailing underscore")
+        # the tests were restructured: the order sub-checks below do not apply; C18.R8 decides the whole table symbolically
+        ctx.note("process_name: separate keyword / reserved-name tests not found, order sub-checks skipped (C18.R8 decides the table)")
+    else:
+        # the escape that counts is the last one on the way to the return
+        kwt = [t for t in kwt if not any(o.id in g.reach_after(t) for o in kwt if o.id != t.id)] or kwt[-1:]
+        rsv = [t for t in rsv if not any(o.id in g.reach_after(t) for o in rsv if o.id != t.id)] or rsv[-1:]
+        for a, b, what in ((snake[0], kwt[0], "snake-casing precedes the keyword escape"), (snake[0], rsv[0], "snake-casing precedes the reserved-name escape")):
+            ctx.check(b.id in g.reach_after(a) and a.id not in g.reach_after(b), key(fi, what), f"order violated: {what}", fi.loc(), okmsg=what)
+        for s in strip:
+            for t, what in ((kwt[0], "keyword"), (rsv[0], "pydantic-reserved name")):
+                ctx.check(s.id not in g.reach_after(t), key(fi, f"strip after {what} escape"),
+                          f"leading underscores are stripped after the {what} escape: `_class` (no snake-casing) becomes `class`, `_model_dump` becomes `model_dump`", fi.loc(s.ast),
+                          okmsg=f"underscore strip happens before the {what} escape")
+        # escapes append a trailing underscore to the processed name
+        for t, what in ((kwt[0], "keyword"), (rsv[0], "reserved")):
+            succ = [g.nodes[j] for j, lab in g.succ[t.id] if lab == "true"]
+            good = len(succ) == 1 and isinstance(succ[0].ast, ast.AugAssign) and norm(succ[0].ast) == "processed_name += '_'"
+            ctx.check(good, key(fi, f"{what} suffix"), f"{what} names are not escaped by a trailing underscore", fi.loc(), okmsg=f"{what} names get a trailing underscore")
     # fallback for all-underscore names
     o = Interp(fi, lambda e: (True if norm(strip_pre(e)).startswith("set(name) == {'_'}") or norm(e) == "not processed_name" else False if norm(e) in ("convert_to_snake_case", "plugin_manager", "trim_leading_underscore", "handle_pydantic_resrved_field_names") else None)).run()
     vals = {norm(x.value) for x in o if x.kind == "return"}
@@ -117,9 +119,139 @@ def c18_r2(ctx):
     for fk in ("client_generators.result_types:ResultTypesGenerator._process_field_name", "client_generators.input_types:InputTypesGenerator._parse_input_definition"):
         f2 = repo.func(fk)
         cs = calls_named(f2.node, "process_name")
-        good = len(cs) == 1 and is_const(kw(cs[0], "trim_leading_underscore"), True) and is_const(kw(cs[0], "handle_pydantic_resrved_field_names"), True) \
-            and norm(kw(cs[0], "convert_to_snake_case") or ast.Constant(0)) == "self.convert_to_snake_case"
+        pn = [a.arg for a in fi.node.args.args]
+        bound = bind_args(fi, cs[0]) if len(cs) == 1 and len(pn) >= 6 else {}
+        good = len(cs) == 1 and is_const(bound.get(pn[4]), True) and is_const(bound.get(pn[5]), True) \
+            and norm(bound.get(pn[1]) or ast.Constant(0)) == "self.convert_to_snake_case"
         ctx.check(good, key(f2, "protections"), "model field names are not processed with underscore trimming and pydantic-reserved handling", f2.loc(), okmsg=f"{f2.qualname}: field names protected")
+
+
+def _pydantic_members():
+    from ..util import site_packages_source
+    path, psrc = site_packages_source("pydantic", "main.py")
+    pyd = set()
+    for n in ast.parse(psrc).body:
+        if isinstance(n, ast.ClassDef) and n.name == "BaseModel":
+            for st in n.body:
+                if isinstance(st, (ast.FunctionDef, ast.AsyncFunctionDef)):
+                    pyd.add(st.name)
+                elif isinstance(st, ast.AnnAssign) and isinstance(st.target, ast.Name):
+                    pyd.add(st.target.id)
+                elif isinstance(st, ast.Assign):
+                    pyd |= {t.id for t in st.targets if isinstance(t, ast.Name)}
+    pyd = {x for x in pyd if not x.startswith("_")}
+    if "model_dump" not in pyd:
+        raise AnalysisError(f"oracle: pydantic.BaseModel members not found in {path}")
+    return pyd
+
+
+def _kwlist():
+    from ..util import stdlib_source
+    path, src = stdlib_source("keyword")
+    for n in ast.parse(src).body:
+        if isinstance(n, ast.Assign) and isinstance(n.targets[0], ast.Name) and n.targets[0].id == "kwlist" and isinstance(n.value, ast.List):
+            return [e.value for e in n.value.elts if isinstance(e, ast.Constant)]
+    raise AnalysisError(f"oracle: kwlist not found in {path}")
+
+
+def _snake_norm(text: str) -> str:
+    """str_to_snake_case(X + '_') == str_to_snake_case(X): the tokeniser skips underscores and tokens never contain one
+    (C18.R1 decides that from the regex automaton), so a trailing '_' added before snake-casing disappears"""
+    import re as _re
+    prev = None
+    while prev != text:
+        prev = text
+        text = _re.sub(r"str_to_snake_case\((.*?) \+ '_'\)", r"str_to_snake_case(\1)", text)
+    return text
+
+
+@rule("C18.R8", "process_name decision table: for every option combination the returned name is the transformed name, escaped iff that very name is a keyword / reserved",
+      min_instances=26, also=["C01", "C03", "C04", "C05", "C06"])
+def c18_r8(ctx):
+    repo = ctx.repo
+    fi = repo.func("utils:process_name")
+    params = [a.arg for a in fi.node.args.args]
+    if len(params) < 6:
+        raise AnalysisError(f"process_name: parameters are {params}")
+    # roles by position (the parameter names themselves may be changed, e.g. the typo in handle_pydantic_resrved_field_names fixed)
+    P_NAME, P_SNAKE, P_PM, P_NODE, P_TRIM, P_RSV = params[:6]
+    # lemmas that make the table finite: escaping by '_' leaves both sets, and the sets are disjoint (from the library sources)
+    kws, pyd = set(_kwlist()), _pydantic_members()
+    lemma = not (kws & pyd) and not any(k + "_" in kws | pyd for k in kws | pyd)
+    ctx.check(lemma, key(fi, "lemma"), f"keyword / pydantic-attribute sets overlap or are not left by appending '_': {sorted(kws & pyd)}", fi.loc(),
+              okmsg=f"lemma: {len(kws)} keywords and {len(pyd)} pydantic attributes are disjoint, and x + '_' is in neither")
+
+    def n_(src):
+        return norm(ast.parse(src, mode="eval").body)
+
+    for snake in (True, False):
+        for trim in (True, False):
+            base = P_NAME
+            if snake:
+                base = f"str_to_snake_case({base})"
+            if trim:
+                base = f"{base}.lstrip('_')"
+            base_t, esc_t = n_(base), n_(f"{base} + '_'")
+            for flag in (True, False):
+                for k1, r1 in ((False, False), (True, False), (False, True)):
+                    wrong: List[str] = []
+
+                    def atom(e, snake=snake, trim=trim, flag=flag, k1=k1, r1=r1, base_t=base_t, esc_t=esc_t, wrong=wrong):
+                        t = norm(strip_pre(e))
+                        if t == P_SNAKE:
+                            return snake
+                        if t == P_TRIM:
+                            return trim
+                        if t == P_RSV:
+                            return flag
+                        if t in (P_PM, f"{P_PM} is not None"):
+                            return False
+                        if t.startswith(f"set({P_NAME}) == {{'_'}}"):
+                            return False
+                        subj = kind = None
+                        ee = strip_pre(e)
+                        if isinstance(ee, ast.Call) and dotted(ee.func) in ("iskeyword", "keyword.iskeyword") and len(ee.args) == 1:
+                            subj, kind = norm(ee.args[0]), "keyword"
+                        elif isinstance(ee, ast.Compare) and len(ee.ops) == 1 and isinstance(ee.ops[0], (ast.In, ast.NotIn)) and "PYDANTIC_RESERVED_FIELD_NAMES" in norm(ee.comparators[0]):
+                            subj, kind = norm(ee.left), "reserved"
+                        if kind is None:
+                            return None
+                        subj = _snake_norm(subj)
+                        if subj == base_t:
+                            ans = k1 if kind == "keyword" else r1
+                        elif subj == esc_t:
+                            ans = False
+                        else:
+                            # a test about some other string decides nothing about the returned name: explore both answers
+                            wrong.append(f"the {kind} test is asked about `{subj}` while the name being returned is `{base_t}`")
+                            return None
+                        if isinstance(ee, ast.Compare) and isinstance(ee.ops[0], ast.NotIn):
+                            return not ans
+                        return ans
+                    outs = [o for o in Interp(fi, atom).run() if o.kind == "return"]
+                    esc = k1 or (r1 and flag)
+                    want = esc_t if esc else base_t
+                    got = sorted({_snake_norm(norm(strip_pre(o.value))) for o in outs})
+                    label = f"snake={snake} trim={trim} reserved-handling={flag} keyword={k1} reserved={r1}"
+                    msg = ""
+                    if got != [want]:
+                        msg = f"returns {got}, expected `{want}`"
+                        if wrong:
+                            msg += "; " + wrong[0] + " (`Class` -> snake-cased `class`, `modelDump` -> `model_dump`: the escape is decided on a different string than the one emitted)"
+                    ctx.check(not msg, key(fi, f"table {label}"), f"process_name[{label}]: {msg}", fi.loc(), okmsg=f"{label} -> {want}")
+    # the plugin hook sees the escaped name and its result is what is returned
+    def atom_p(e):
+        t = norm(strip_pre(e))
+        if t in (P_PM, f"{P_PM} is not None"):
+            return True
+        if t in (P_SNAKE, P_TRIM, P_RSV):
+            return False
+        if t.startswith("iskeyword(") or "PYDANTIC_RESERVED_FIELD_NAMES" in t or t.startswith(f"set({P_NAME})"):
+            return False
+        return None
+    outs = [o for o in Interp(fi, atom_p).run() if o.kind == "return"]
+    got = sorted({norm(strip_pre(o.value)) for o in outs})
+    ctx.check(got == [f"{P_PM}.process_name({P_NAME}, node={P_NODE})"], key(fi, "plugin hook"), f"with a plugin manager the result is {got}", fi.loc(), okmsg="plugin hook applied last, on the processed name")
 
 
 SCOPES = [
@@ -279,7 +411,7 @@ def c19_r3(ctx):
                   + (f" (undecided: {it.unknown_tests})" if it.unknown_tests else ""), fi.loc(), okmsg=f"introspection [{name}] -> {'IntrospectionError' if want == 'raise' else 'data'}")
 
 
-@rule("C19.R4", "configured headers (with $ENV substitution) and the TLS flag are what the introspection request sends", min_instances=6)
+@rule("C19.R4", "configured headers (with $ENV substitution) and the TLS flag are what the introspection request sends", min_instances=6, also=["C17"])
 def c19_r4(ctx):
     repo = ctx.repo
     fi = repo.func("schema:introspect_remote_schema")
@@ -304,9 +436,15 @@ def c19_r4(ctx):
         # path has precedence only when set
         o = Interp(m, lambda e: (False if norm(e) == "settings.schema_path" else None)).run()
     bs = repo.func("settings:BaseSettings.__post_init__")
-    good = any(isinstance(st, ast.Assign) and norm(st.targets[0]) == "self.remote_schema_headers" and norm(st.value) == "resolve_headers(self.remote_schema_headers)" for st in bs.node.body)
     g = cfg_of(bs)
-    ctx.check(good, key(bs, "resolve"), "remote_schema_headers are not resolved in __post_init__", bs.loc(), okmsg="headers resolved when settings are built")
+    is_resolve = lambda n: n.ast is not None and isinstance(n.ast, ast.Assign) and norm(n.ast.targets[0]) == "self.remote_schema_headers" and norm(n.ast.value) == "resolve_headers(self.remote_schema_headers)"
+    sites = [n for n in g.stmts() if is_resolve(n)]
+    ctx.check(bool(sites), key(bs, "resolve"), "remote_schema_headers are not resolved in __post_init__", bs.loc(), okmsg="headers resolved when settings are built")
+    if sites:
+        path = g.must_pass(g.entry, [g.exit], is_resolve)
+        ctx.check(path is None, key(bs, "resolve on every path"),
+                  "settings can be built without resolving the headers: " + (g.path_str(path) if path else "") + " - a `$NAME` header whose variable is missing is then accepted silently (and sent verbatim if the URL is used) "
+                  "instead of failing with InvalidConfiguration when the configuration is read", bs.loc(), okmsg="every accepted configuration has passed header resolution")
     rh = repo.func("settings:resolve_headers")
     good = norm(rh.node.body[-1]) == "return {key: get_header_value(value) for key, value in headers.items()}"
     ctx.check(good, key(rh, "each"), "not every header value is resolved (keys unchanged)", rh.loc(), okmsg="every header value resolved, keys unchanged")
